@@ -559,5 +559,6 @@ def plan(tier, seed):
     kinds = ["gen", "new_defined", "plain_lazy_chain", "nested_type", "gen", "lazy_parent", "sub_defines_new", "diamond_new", "diamond_post_init", "no_init", "two_lazy_parents"]
     if tier == "quick":
         return [{"shard": i, "sources": 2, "kinds": kinds[i % 11 :] + kinds[: i % 11], "single": 40, "double": 30, "priority_double": 160, "pct": 10, "threads": 3 if i % 4 == 3 else 2} for i in range(16)]
-    # (three-thread schedules are longer: those shards take two sources so that they do not become the tail of the run)
-    return [{"shard": i, "sources": 2 if i % 4 == 3 else 3, "kinds": kinds[i % 11 :] + kinds[: i % 11], "single": "all", "double": 200, "pct": 60, "threads": 3 if i % 4 == 3 else 2} for i in range(32)]
+    # (three-thread schedules are longer and their single-preemption set is large: those shards take two sources and a
+    # sample of at most 800 single-preemption schedules per plan, so that they do not become the tail of the run)
+    return [{"shard": i, "sources": 2 if i % 4 == 3 else 3, "kinds": kinds[i % 11 :] + kinds[: i % 11], "single": 400 if i % 4 == 3 else "all", "double": 200, "pct": 60, "threads": 3 if i % 4 == 3 else 2} for i in range(32)]
